@@ -182,6 +182,9 @@ def cmpAdd (s : Snap) (n : Node) (res : AppId) (t : Snap) : String :=
     | none => "model-none"
     | some (m, a) =>
       if a.id != res.id then "diff:id"
+      -- the hypotheses of `lookup_agrees_with_add`, per run: a well-formed table, no class id beyond it
+      else if !s.ufOK then "diff:ufOK-before"
+      else if s.classes.any (fun c => c.id >= s.uf.length) then "diff:class-id-beyond-table"
       else if t.uf.length != m.uf.length then "diff:uf-length"
       else if (List.range m.uf.length).any (fun i =>
           (Snap.ufGet t (t.uf.length + 1) i).map showApp != (Snap.ufGet m (m.uf.length + 1) i).map showApp) then "diff:uf-resolution"
